@@ -133,6 +133,7 @@ class Actor:
         self.kind = "sync"       # what the actor is parked at: "sync" (lock/timer/send operation, start) or "instr"
         self.steps = 0
         self.ident = None
+        self.sleep_until = None
 
     def start(self):
         w = Worker.get()
@@ -256,6 +257,48 @@ class SchedTimer:
         return None
 
 
+class SchedThread:
+    """threading.Thread drop-in: start() turns the target into a new actor of the running scheduler."""
+
+    def __init__(self, group=None, target=None, name=None, args=(), kwargs=None, daemon=None):
+        self.target, self.args, self.kwargs = target, tuple(args or ()), dict(kwargs or {})
+        self.name = name
+        self.daemon = daemon
+        self.actor = None
+
+    def start(self):
+        s = _current
+        if s is None:
+            raise RuntimeError("SchedThread started outside a scheduled execution")
+        s.thread_seq += 1
+        self.name = self.name or f"thread{s.thread_seq}:{getattr(self.target, '__name__', '?')}"
+        self.actor = s.add_actor(self.name, lambda: self.target(*self.args, **self.kwargs))
+        self.actor.start()
+        s.trace.append(("thread-start", self.name, s.step_no))
+        me = s.by_ident.get(threading.get_ident())
+        if me is not None:
+            s.sync_point(me, "thread-start")
+
+    def is_alive(self):
+        return self.actor is not None and not self.actor.done
+
+    def join(self, timeout=None):
+        return None
+
+
+def sched_sleep(dt):
+    """time.sleep drop-in: the actor is not runnable before virtual time has advanced by dt; virtual time advances
+    (to the earliest wake-up) only when no actor can run."""
+    s = _current
+    a = s.by_ident.get(threading.get_ident()) if s else None
+    if a is None:
+        return
+    a.sleep_until = s.vtime + max(0.0, float(dt))
+    a.at = ("sleep", a.at[0] if a.at else None)
+    a.kind = "sync"
+    s.park(a)
+
+
 class Deadlock(Exception):
     pass
 
@@ -293,6 +336,9 @@ class Scheduler:
         self.preemptions = 0
         self.current = None
         self.abort = False
+        self.vtime = 0.0         # virtual time for sched_sleep
+        self.thread_seq = 0
+        self.on_time = None      # optional callable(vtime) when virtual time advances
 
     def add_actor(self, name, fn):
         a = Actor(self, name, fn)
@@ -350,6 +396,10 @@ class Scheduler:
                 continue
             if a.blocked_on is not None and a.blocked_on.owner is not None and not (a.blocked_on.reentrant and a.blocked_on.owner == a.ident):
                 continue
+            if a.sleep_until is not None:
+                if a.sleep_until > self.vtime + 1e-12:
+                    continue
+                a.sleep_until = None
             out.append(("actor", a))
         for t in self.timers:
             if t.started and not t.cancelled and not t.fired:
@@ -371,6 +421,13 @@ class Scheduler:
                 live = [a for a in self.actors if not a.done]
                 if not live:
                     break
+                if not en:
+                    sleepers = [a.sleep_until for a in live if a.sleep_until is not None]
+                    if sleepers:
+                        self.vtime = min(sleepers)          # nobody can run: time passes up to the earliest wake-up
+                        if self.on_time:
+                            self.on_time(self.vtime)
+                        continue
                 if not [e for e in en if e[0] == "actor"] and not [e for e in en if e[0] == "timer"]:
                     outcome["deadlock"] = True
                     outcome["blocked"] = [(a.name, a.at) for a in live]
